@@ -58,7 +58,8 @@ func Send[T any](ch chan<- T, v T) {
 		return
 	}
 	if cap(ch) == 0 {
-		unsupported("unbuffered channel send")
+		sendUnbuffered(s, t, ch, v)
+		return
 	}
 	cs := s.chanState(chanPtr(ch), cap(ch))
 	t.pend = op{kind: OpSend, obj: cs.ord, ch: cs, srcVar: t.lastRead,
@@ -110,7 +111,7 @@ func Recv2[T any](ch <-chan T) (T, bool) {
 		return zero, false
 	}
 	if cap(ch) == 0 {
-		unsupported("unbuffered channel receive")
+		return recvUnbuffered(s, t, ch)
 	}
 	cs := s.chanState(chanPtr(ch), cap(ch))
 	t.pend = op{kind: OpRecv, obj: cs.ord, ch: cs, srcVar: t.lastRead,
@@ -138,6 +139,83 @@ func recvPerform[T any](s *Sim, t *task, cs *chanState, ch <-chan T) (T, bool) {
 		modelMismatch("receive would block")
 	}
 	panic("unreachable")
+}
+
+// ---- unbuffered channels: rendezvous handled entirely in the model ------------
+//
+// The real channel is never used for data (one task cannot perform both halves
+// of a rendezvous); the value travels through the task records.  Either side
+// may complete the exchange when it is scheduled and finds its partner parked.
+
+func (s *Sim) parkedPartner(self *task, cs *chanState, kind OpKind) *task {
+	for _, u := range s.tasks {
+		if u == self || u.finished || u.pend.ch != cs || u.pend.kind != kind {
+			continue
+		}
+		if kind == OpSend && !u.sendTaken {
+			return u
+		}
+		if kind == OpRecv && !u.xferReady {
+			return u
+		}
+	}
+	return nil
+}
+
+func rendezvousClocks(a, b *task) {
+	a.vc.join(b.vc)
+	b.vc.join(a.vc)
+	a.vc.tick(a.id)
+	b.vc.tick(b.id)
+}
+
+func sendUnbuffered[T any](s *Sim, t *task, ch chan<- T, v T) {
+	cs := s.chanState(chanPtr(ch), 0)
+	t.sendVal = &v
+	t.sendTaken = false
+	t.pend = op{kind: OpSend, obj: cs.ord, ch: cs, srcVar: t.lastRead,
+		enabled: func() bool { return t.sendTaken || cs.closed || s.parkedPartner(t, cs, OpRecv) != nil }}
+	s.yield(t)
+	if t.sendTaken {
+		return
+	}
+	if cs.closed {
+		panic("send on closed channel")
+	}
+	r := s.parkedPartner(t, cs, OpRecv)
+	if r == nil {
+		modelMismatch("unbuffered send without a receiver")
+	}
+	r.xferVal = &v
+	r.xferReady = true
+	t.sendTaken = true
+	rendezvousClocks(t, r)
+}
+
+func recvUnbuffered[T any](s *Sim, t *task, ch <-chan T) (T, bool) {
+	var zero T
+	cs := s.chanState(chanPtr(ch), 0)
+	t.xferReady = false
+	t.pend = op{kind: OpRecv, obj: cs.ord, ch: cs, srcVar: t.lastRead,
+		enabled: func() bool { return t.xferReady || cs.closed || s.parkedPartner(t, cs, OpSend) != nil }}
+	s.yield(t)
+	if t.xferReady {
+		return *(t.xferVal.(*T)), true
+	}
+	if snd := s.parkedPartner(t, cs, OpSend); snd != nil {
+		v := *(snd.sendVal.(*T))
+		snd.sendTaken = true
+		t.xferReady = true
+		rendezvousClocks(t, snd)
+		return v, true
+	}
+	if cs.closed {
+		t.vc.join(cs.closeVC)
+		t.vc.tick(t.id)
+		return zero, false
+	}
+	modelMismatch("unbuffered receive without a sender")
+	return zero, false
 }
 
 // Close is `close(ch)`.
